@@ -180,7 +180,7 @@ def build(ctx):
                 vals = {id(o.value): o.value for o in outs if o.kind == "return"}
                 if len(vals) != 1 or any(o.kind != "return" for o in outs):
                     return be.Verdict(be.REFUTED, "CAS", witness={}, detail=f"{cls}.fvf_scale [fluid: {fl}]: the value depends on the attached fluid table or the call raises ({len(outs)} paths, {len(vals)} distinct values)")
-                v = be.prove_equal_cas(tm.toreal(list(vals.values())[0]), tm.toreal(want), {"p_f": (100.0, 5000.0), "p_init": (5000.0, 9000.0)}, seed=ctx.seed)
+                v = be.prove_equal_cas(tm.toreal(list(vals.values())[0]), tm.toreal(want), {"p_f": (100.0, 5000.0), "p_init": (5000.0, 9000.0), "pf_at_construction": (100.0, 5000.0), "pi_at_construction": (5000.0, 9000.0)}, seed=ctx.seed)
                 if v.status != be.PROVED:
                     v.detail = f"{cls}.fvf_scale [fluid: {fl}]: " + v.detail
                     return v
@@ -191,6 +191,11 @@ def build(ctx):
         a, b_ = Ir(10, 2000.0, 8000.0).fvf_scale(), Sr(10, 2000.0, 8000.0).fvf_scale()
         if not (close(a, 0.75, 1e-14) and b_ == 1):
             return {"reproduced": True, "input": {"p_f": 2000.0, "p_i": 8000.0, "fluid": None}, "observed": [float(a), float(b_)], "required": [0.75, 1]}
+        # one object re-used for a drawdown sweep: the public fields are reassigned after construction
+        r_ = Ir(10, 1000.0, 5000.0)
+        r_.pressure_fracface, r_.pressure_initial = 4000.0, 8000.0
+        if not close(r_.fvf_scale(), 0.5, 1e-14):
+            return {"reproduced": True, "input": {"constructed with": {"p_f": 1000.0, "p_i": 5000.0}, "then reassigned": {"pressure_fracface": 4000.0, "pressure_initial": 8000.0}, "fluid": None}, "observed": float(r_.fvf_scale()), "required": 0.5}
         from ..rt import c01 as rt1
         for name in ("gas", "syn_kinked", "gas:desc"):
             fluid = rt1.make_fluid(name)
